@@ -2,6 +2,8 @@ package main
 
 import (
 	"encoding/hex"
+	"os"
+	"path/filepath"
 	"encoding/json"
 	"fmt"
 	"hash/fnv"
@@ -119,6 +121,9 @@ type Sim struct {
 	ctxCache *sdk.Context
 	snap     *Snap
 	modNames map[string]string
+	blockLog []loggedBlock
+	dumpPath string
+	dumpAt   int64
 	blockIdx int
 	nonce    uint64
 	halted   bool
@@ -486,6 +491,19 @@ func (s *Sim) execBlock(spec *BlockSpec) {
 		fmt.Fprintf(&s.codesLog, "%d/%d:%d:%d;", h, i, r.Code, r.GasUsed)
 	}
 	s.Hashes = append(s.Hashes, hex.EncodeToString(eb.Res.AppHash))
+	if s.Cfg.Reexec {
+		lb := loggedBlock{Height: h, TimeNs: now.UnixNano(), Hash: hex.EncodeToString(eb.Res.AppHash)}
+		for _, bz := range blk.Txs {
+			lb.Txs = append(lb.Txs, hex.EncodeToString(bz))
+		}
+		s.blockLog = append(s.blockLog, lb)
+		if s.dumpAt == 0 && h == s.Cfg.ReexecDumpAt {
+			p := filepath.Join(os.TempDir(), fmt.Sprintf("elyssim-dbdump-%d-%d.gob", os.Getpid(), s.Seed))
+			if err := dumpDB(s.N0.DB, p); err == nil {
+				s.dumpPath, s.dumpAt = p, h
+			}
+		}
+	}
 	s.recordTxStats(eb)
 	// replica
 	if s.N1 != nil {
@@ -717,6 +735,7 @@ func (s *Sim) Run() {
 			break
 		}
 	}
+	s.finishReexec()
 	if s.HarnessErr == "" && !s.halted {
 		for _, m := range s.Monitors {
 			func() {
